@@ -419,6 +419,11 @@ func main() {
 	}
 	for _, sc := range scenarios() {
 		for _, procsEnv := range passes {
+			// the 2-P pass only for the scenarios about lazily built or process-wide state
+			if procsEnv != "" && !(sc.firstUse != nil || strings.HasPrefix(sc.name, "cache:") || strings.HasPrefix(sc.name, "target:") ||
+				sc.name == "lazy-first-use" || sc.name == "registry-meta" || sc.name == "config" || sc.name == "format-caches") {
+				continue
+			}
 			obs := "norace ok"
 			np := sc.procs
 			if np < 1 {
